@@ -416,7 +416,16 @@ func (f *farm) datagram(c *callScript, cls string) []byte {
 		}
 	case "malformed":
 		if c.kind == "status" {
-			m[28+f.rng.Intn(8)] = byte(2 + f.rng.Intn(254)) // a boolean byte other than 0/1
+			switch f.rng.Intn(3) {
+			case 0:
+				m[28+f.rng.Intn(8)] = byte(2 + f.rng.Intn(254)) // a boolean byte other than 0/1
+			case 1:
+				// the event timestamp: a "no date" (all zero, or 2000-00-00) in front of a time of day with a non-decimal nibble
+				copy(m[20:27], [][]byte{{0, 0, 0, 0, 0x12, 0x30, 0x00}, {0x20, 0, 0, 0, 0x12, 0x30, 0x00}}[f.rng.Intn(2)])
+				m[24+f.rng.Intn(3)] |= 0x0a + byte(f.rng.Intn(6))
+			case 2:
+				m[37+f.rng.Intn(3)] = 0xa0 | byte(f.rng.Intn(16)) // non-decimal nibble in the system time
+			}
 		} else {
 			m[12+f.rng.Intn(8)] = 0xa0 | byte(f.rng.Intn(16)) // non-decimal BCD nibble in a date
 		}
@@ -454,7 +463,7 @@ func (f *farm) onRequest(c *callScript, via, to string, src *net.UDPAddr, send f
 	}
 	acts := []act{}
 	// controllers do not answer function 0x96 (set-address)
-	if c.kind != "setaddr" && !(len(c.plan) == 1 && (c.plan[0].cls == "silence" || c.plan[0].cls == "reset" || c.plan[0].cls == "refused" || c.plan[0].cls == "blackhole" || c.plan[0].cls == "slowstall")) {
+	if c.kind != "setaddr" && !(len(c.plan) == 1 && (c.plan[0].cls == "silence" || c.plan[0].cls == "reset" || c.plan[0].cls == "closed" || c.plan[0].cls == "refused" || c.plan[0].cls == "blackhole" || c.plan[0].cls == "slowstall")) {
 		for i, p := range c.plan {
 			acts = append(acts, act{at: time.Duration(float64(f.tick)*(float64(p.delay)+0.45)) + time.Duration(i)*time.Millisecond, cls: p.cls, n: i + 1})
 		}
@@ -555,6 +564,9 @@ func (f *farm) serveTCP(l *net.TCPListener, ctl string) {
 					conn.SetLinger(0)
 					return // deferred Close sends RST
 				}
+				if len(c.plan) == 1 && c.plan[0].cls == "closed" {
+					return // deferred Close: an orderly end of stream (FIN) without a single byte of reply
+				}
 				// keep the connection open until the client goes away (accept-and-stall when silent)
 				conn.SetReadDeadline(time.Now().Add(time.Duration(f.sc.T+6) * f.tick))
 				conn.Read(buf)
@@ -648,6 +660,7 @@ func runScenario(sc *script, lt *layoutTables, tick time.Duration, seed int64, f
 
 	// one client per delivery path (several clients coexist in the process); calls on the same path share one
 	clients := map[string]uhppote.IUHPPOTE{}
+	all := []uhppote.Device{}
 	for _, path := range []string{"bcast", "udp", "tcp"} {
 		devices := []uhppote.Device{}
 		if path != "bcast" {
@@ -688,6 +701,33 @@ func runScenario(sc *script, lt *layoutTables, tick time.Duration, seed int64, f
 			}
 		}
 		clients[path] = uhppote.NewUHPPOTE(bind, bc, types.ListenAddr{}, timeout, devices, false)
+		all = append(all, devices...)
+	}
+	// ... or, in every other scenario in which no controller is reached over two different paths, ONE client that is
+	// configured with all of them (udp and tcp controllers side by side, the rest not configured): whatever a client
+	// keeps between calls is then shared by calls over different transports
+	pathsOf := map[string]map[string]bool{}
+	for _, c := range sc.calls {
+		if pathsOf[c.ctl] == nil {
+			pathsOf[c.ctl] = map[string]bool{}
+		}
+		pathsOf[c.ctl][c.path] = true
+	}
+	shareable := true
+	for _, ps := range pathsOf {
+		if len(ps) > 1 {
+			shareable = false
+		}
+	}
+	h := 0
+	for _, ch := range sc.id {
+		h = h*31 + int(ch)
+	}
+	if shareable && h%2 == 0 {
+		one := uhppote.NewUHPPOTE(bind, bc, types.ListenAddr{}, timeout, all, false)
+		for _, path := range []string{"bcast", "udp", "tcp"} {
+			clients[path] = one
+		}
 	}
 
 	t0 := time.Now().Add(5 * time.Millisecond)
